@@ -1,5 +1,5 @@
 # replay of a bounded stand-in violation (C13): re-run native/c13_tdm.py
 import sys
-print('space_unroll N=3 T=3: 3 modes, expected timebins + concurrent - 1 = 5')
+print('delays=[2, 3], leading identity bins per loop=[1, 3]: get_crop_value() = 4, in the hand-written loop the first 3 detected pulses are vacuum and pulse 3 carries light')
 print('REPLAY-VIOLATION')
 sys.exit(1)
